@@ -753,19 +753,15 @@ Proof.
   rewrite (H _ E1), IH; auto.
 Qed.
 
-Lemma marker_eventually s : Inv s -> all_done s = true -> ds s <> [] ->
+Lemma marker_eventually_closed s : Inv s -> all_done s = true -> closed s = true ->
   marker s = true /\ (In Marker (hist s) \/ (mlost s = true /\ rx_open s = false)).
 Proof.
-  intros [N _ _] AD Hd. unfold all_done in AD. apply andb_true_iff in AD as [As Ad].
+  intros [N _ _] AD Hc. unfold all_done in AD. apply andb_true_iff in AD as [As Ad].
   assert (Z1 : sumf admitted1 (ss s) = 0) by (apply (forallb_sumf0 s_done); auto; intros []; simpl; auto; discriminate).
   assert (Z2 : sumf s_sending (ss s) = 0) by (apply (forallb_sumf0 s_done); auto; intros []; simpl; auto; discriminate).
   assert (Z3 : sumf s_live (ss s) = 0) by (apply (forallb_sumf0 s_done); auto; intros []; simpl; auto; discriminate).
   assert (Z4 : sumf d_sending (ds s) = 0) by (apply (forallb_sumf0 d_done); auto; intros []; simpl; auto; discriminate).
   assert (Z5 : sumf d_live (ds s) = 0) by (apply (forallb_sumf0 d_done); auto; intros []; simpl; auto; discriminate).
-  assert (Z6 : sumf d_past (ds s) >= 1).
-  { destruct (ds s) as [|p t]; [congruence|]. simpl in *. apply andb_true_iff in Ad as [Ap _].
-    destruct p; simpl in *; try discriminate; lia. }
-  pose proof (n_closed _ N Z6) as Hc.
   assert (Mk : marker s = true).
   { destruct (marker s) eqn:Em; auto. pose proof (n_live _ N Hc Em) as X.
     rewrite (n_cnt _ N), Z1, Z3, Z5 in X. specialize (X eq_refl). lia. }
@@ -773,6 +769,26 @@ Proof.
   destruct (mlost s) eqn:El; simpl in X.
   - right. split; auto. apply (n_lost _ N); auto.
   - left. apply markers_pos_in. lia.
+Qed.
+
+Lemma marker_eventually s : Inv s -> all_done s = true -> ds s <> [] ->
+  marker s = true /\ (In Marker (hist s) \/ (mlost s = true /\ rx_open s = false)).
+Proof.
+  intros I AD Hd. apply marker_eventually_closed; auto.
+  destruct I as [N _ _]. apply (n_closed _ N).
+  unfold all_done in AD. apply andb_true_iff in AD as [_ Ad].
+  destruct (ds s) as [|p t]; [congruence|]. simpl in *. apply andb_true_iff in Ad as [Ap _].
+  destruct p; simpl in *; try discriminate; lia.
+Qed.
+
+Lemma not_idle_closed s : Inv s -> all_done s = true -> closed s = true -> alive (cons s) = true ->
+  In Marker (q s).
+Proof.
+  intros I AD Hc A. destruct (marker_eventually_closed s I AD Hc) as [_ [H|[_ H]]].
+  - destruct I as [_ _ [(fl & E1 & E2) QA _ _]]. destruct (QA A) as (Hrx & _ & Hmk).
+    rewrite <- (E2 Hrx). rewrite E1 in H. apply in_app_or in H as [H|H]; auto.
+    apply in_markers in H. lia.
+  - destruct I as [_ _ [_ QA _ _]]. destruct (QA A) as (Hrx & _). congruence.
 Qed.
 
 (* a drain cannot leave the actor idle forever: in a state where every call has returned and
@@ -1108,3 +1124,336 @@ Theorem wrong_type_inert fail s i inf :
   nth_error (ss s) i = Some T0 -> nth_error (si s) i = Some inf -> wrong inf = true ->
   sstep fail s i = add_log (set_ss s (upd (ss s) i (SDone RInvalid))) (EEnd i RInvalid).
 Proof. intros H1 H2 H3. unfold sstep. rewrite H1, H2, H3. reflexivity. Qed.
+
+(* ---------- what a step shows to an observer of the log ---------- *)
+
+Definition quiet (c : cpc) : bool :=
+  match c with CExit r | CDead r => drained_r r | _ => true end.
+Definition is_interv (e : ev) : bool :=
+  match e with EStopReq | EKillReq | EFail => true | _ => false end.
+
+Definition cframe (s s' : st) : Prop :=
+  exits s' = exits s /\ handled s' = handled s /\ stop_req s' = stop_req s /\
+  kill_req s' = kill_req s /\ quiet (cons s') = quiet (cons s) /\ si s' = si s.
+
+Inductive SObs (s s' : st) : Prop :=
+| so_silent : log s' = log s -> exits s' = exits s -> handled s' = handled s ->
+    stop_req s' = stop_req s -> kill_req s' = kill_req s -> si s' = si s ->
+    (stop_req s = false -> kill_req s = false -> quiet (cons s) = true -> quiet (cons s') = true) ->
+    SObs s s'
+| so_begin i w inf : log s' = log s ++ [EBegin i w] -> nth_error (ss s) i = None ->
+    nth_error (si s') i = Some inf -> wrong inf = w ->
+    (forall x y, nth_error (si s') x = Some y -> x = i \/ nth_error (si s) x = Some y) ->
+    exits s' = exits s -> handled s' = handled s -> stop_req s' = stop_req s ->
+    kill_req s' = kill_req s -> quiet (cons s') = quiet (cons s) -> SObs s s'
+| so_end i r : log s' = log s ++ [EEnd i r] -> result s' i = Some r -> cframe s s' -> SObs s s'
+| so_drain ok j : log s' = log s ++ [EDrainEnd ok] -> nth_error (ds s') j = Some (DDone ok) ->
+    cframe s s' -> SObs s s'
+| so_handle i : log s' = log s ++ [EHandle i] -> handled s' = handled s ++ [i] ->
+    exits s' = exits s -> stop_req s' = stop_req s -> kill_req s' = kill_req s ->
+    quiet (cons s') = true -> stop_req s = false -> kill_req s = false -> si s' = si s -> SObs s s'
+| so_exit r : log s' = log s ++ [EExit r] -> exits s' = exits s ++ [r] -> handled s' = handled s ->
+    stop_req s' = stop_req s -> kill_req s' = kill_req s -> quiet (cons s') = quiet (cons s) ->
+    si s' = si s -> SObs s s'
+| so_interv e : is_interv e = true -> log s' = log s ++ [e] -> exits s' = exits s ->
+    handled s' = handled s -> si s' = si s -> SObs s s'.
+
+Lemma cframe_refl s : cframe s s.
+Proof. repeat split; auto. Qed.
+
+Lemma silent_of_cframe s s' : log s' = log s -> cframe s s' -> SObs s s'.
+Proof. intros L (A & B & C & D & E & F). apply so_silent; auto. rewrite E. auto. Qed.
+
+Lemma nth_snoc_len {A} (l : list A) x n : n = length l -> nth_error (l ++ [x]) n = Some x.
+Proof. intros ->. rewrite nth_error_app2 by lia. rewrite Nat.sub_diag. auto. Qed.
+
+Lemma sobs_do_call s c k s' : length (si s) = length (ss s) -> do_call s c = (k, s') -> SObs s s'.
+Proof.
+  intros Hl H.
+  destruct c as [p w b g f bx hc| | |]; simpl in H; injection H as <- <-.
+  - eapply (so_begin _ _ (length (ss s)) w (mkInfo p w b g f bx hc)); simpl; auto.
+    + apply nth_error_None. lia.
+    + apply nth_snoc_len. auto.
+    + intros x y Hx. destruct (lt_dec x (length (si s))) as [Hlt|Hge].
+      * right. rewrite nth_error_app1 in Hx; auto.
+      * left. assert (x < length (si s ++ [mkInfo p w b g f bx hc])) by (apply nth_error_Some; congruence).
+        rewrite app_length in H. simpl in H. lia.
+  - apply silent_of_cframe; simpl; auto. (repeat split; auto).
+  - apply (so_interv _ _ EStopReq); simpl; auto.
+  - apply (so_interv _ _ EKillReq); simpl; auto.
+Qed.
+
+(* SObs only looks at the log and the consumer-side fields *)
+Lemma sobs_ext s s' s2 :
+  SObs s s' -> log s2 = log s' -> exits s2 = exits s' -> handled s2 = handled s' ->
+  stop_req s2 = stop_req s' -> kill_req s2 = kill_req s' -> quiet (cons s2) = quiet (cons s') ->
+  si s2 = si s' -> ds s2 = ds s' ->
+  (forall i r, result s' i = Some r -> result s2 i = Some r) -> SObs s s2.
+Proof.
+  intros H L E T S K C I Dd R.
+  destruct H; unfold cframe in *.
+  - apply so_silent; try congruence. rewrite C. auto.
+  - eapply so_begin; eauto; try congruence. intros x y Hx. rewrite I in Hx. auto.
+  - eapply so_end; eauto; try congruence. unfold cframe; intuition congruence.
+  - eapply (so_drain _ _ ok j); try congruence. unfold cframe; intuition congruence.
+  - eapply (so_handle _ _ i); try congruence.
+  - eapply (so_exit _ _ r); try congruence.
+  - eapply (so_interv _ _ e); try congruence.
+Qed.
+
+Lemma result_upd_other s i p j r : i <> j -> result s j = Some r -> result (set_spc s i p) j = Some r.
+Proof. unfold result. simpl. intros Hne. rewrite (nth_upd_neq _ _ _ _ Hne). auto. Qed.
+
+Lemma sobs_sstep fail s i : length (si s) = length (ss s) -> SObs s (sstep fail s i).
+Proof.
+  intros Hl. unfold sstep.
+  destruct (nth_error (ss s) i) as [p|] eqn:Hn; [|apply silent_of_cframe; auto; (repeat split; auto)].
+  destruct (nth_error (si s) i) as [inf|] eqn:Hi; [|apply silent_of_cframe; auto; (repeat split; auto)].
+  assert (FIN : forall s0 r, log s0 = log s -> cframe s s0 -> nth_error (ss s0) i = Some p ->
+                 SObs s (s_finish s0 i r)).
+  { intros s0 r L C N. eapply (so_end _ _ i r); simpl; try rewrite L; auto.
+    unfold result. simpl. rewrite (nth_upd_eq _ _ _ _ N). auto. }
+  assert (SIL : forall s0 p', log s0 = log s -> cframe s s0 -> SObs s (set_spc s0 i p')).
+  { intros s0 p' L C. apply silent_of_cframe; simpl; auto. }
+  destruct p as [| | |w| |todo|k todo| |r|r a|r];
+    try (repeat match goal with |- context [if ?b then _ else _] => destruct b eqn:? end;
+         solve [apply FIN; simpl; auto; (repeat split; auto)
+               |apply SIL; simpl; auto; (repeat split; auto)
+               |apply silent_of_cframe; auto; (repeat split; auto)]).
+  - destruct todo as [|c todo].
+    + destruct (boxok inf); apply SIL; auto; (repeat split; auto).
+    + destruct (do_call s c) as [k s'] eqn:Hc.
+      pose proof (sobs_do_call _ _ _ _ Hl Hc) as X.
+      eapply sobs_ext; eauto; simpl; auto.
+      intros j r Hr. destruct (Nat.eq_dec i j) as [<-|Hne]; [|apply result_upd_other; auto].
+      exfalso. destruct (do_call_shape _ _ _ _ Hc) as (l1 & _ & _ & Es & _).
+      apply result_pc in Hr. rewrite Es, (nth_app_some _ _ _ _ Hn) in Hr. discriminate.
+  - destruct (ma_step fail s a) as [a' s'] eqn:Hma.
+    destruct (ma_step_eff _ _ _ _ _ Hma) as ((Es & Ed & Ei & Ec & Ecl & Est & Erx & Et & Eco & Eex & El & Esr & Ekr) & _).
+    assert (C : cframe s s') by (unfold cframe, handled; rewrite Eco, Et; repeat split; auto).
+    destruct a'; try (apply SIL; auto).
+    apply FIN; auto. rewrite Es; auto.
+Qed.
+
+Lemma sobs_dstep fail s j : SObs s (dstep fail s j).
+Proof.
+  unfold dstep. destruct (nth_error (ds s) j) as [[| |a|b]|] eqn:Hn;
+    try (apply silent_of_cframe; simpl; auto; repeat split; auto; fail).
+  destruct (ma_step fail s a) as [a' s'] eqn:Hma.
+  destruct (ma_step_eff _ _ _ _ _ Hma) as ((Es & Ed & Ei & Ec & Ecl & Est & Erx & Et & Eco & Eex & El & Esr & Ekr) & _).
+  assert (C : cframe s s') by (unfold cframe, handled; rewrite Eco, Et; repeat split; auto).
+  destruct a' as [|w| |okb]; try (apply silent_of_cframe; simpl; auto; fail).
+  eapply (so_drain _ _ okb j); simpl; try rewrite El; auto.
+  rewrite Ed. eapply nth_upd_eq; eauto.
+Qed.
+
+Theorem sobs_step s l : length (si s) = length (ss s) -> SObs s (step s l).
+Proof.
+  intros Hl. destruct l as [c|i|i|j|j| | | | | | | ]; simpl;
+    try apply sobs_sstep; try apply sobs_dstep; auto.
+  - destruct (do_call s c) as [k s'] eqn:H. simpl. eapply sobs_do_call; eauto.
+  - (* LRecv *) unfold recv_step. destruct (cons s) eqn:Ec; try (apply silent_of_cframe; auto; apply cframe_refl).
+    destruct (kill_req s) eqn:Ek; [apply so_silent; simpl; auto; intros; congruence|].
+    destruct (stop_req s) eqn:Es; [apply so_silent; simpl; auto; intros; congruence|].
+    destruct (rx_open s); [|apply silent_of_cframe; auto; apply cframe_refl].
+    destruct (q s) as [|[i|] rest]; [apply silent_of_cframe; auto; apply cframe_refl| |].
+    + apply (so_handle _ _ i); simpl; auto. unfold handled; simpl. rewrite ids_app. auto.
+    + apply so_silent; simpl; auto. unfold handled; simpl. rewrite ids_app. simpl. apply app_nil_r.
+  - (* LH *) unfold handler_step. destruct (cons s) as [|i todo|i k todo|r|r] eqn:Ec;
+      try (apply silent_of_cframe; auto; apply cframe_refl).
+    + destruct todo as [|c todo].
+      * destruct (hfail_of s i); [apply (so_interv _ _ EFail); simpl; auto|apply so_silent; simpl; auto].
+      * destruct (do_call s c) as [k s'] eqn:H. pose proof (sobs_do_call _ _ _ _ Hl H) as X.
+        destruct (do_call_shape _ _ _ _ H) as (_ & _ & _ & _ & _ & _ & _ & _ & _ & _ & _ & _ & _ & _ & _ & _ & _ & _ & Eco & _).
+        eapply sobs_ext; eauto; simpl; auto. rewrite Eco, Ec. auto.
+    + destruct (child_done s k); [apply so_silent; simpl; auto|apply silent_of_cframe; auto; apply cframe_refl].
+  - (* LKillNow *) destruct (in_handler (cons s) && kill_req s) eqn:E; [|apply silent_of_cframe; auto; apply cframe_refl].
+    apply andb_true_iff in E as [_ E]. apply so_silent; simpl; auto. intros; congruence.
+  - (* LCrash *) destruct (alive (cons s)); [|apply silent_of_cframe; auto; apply cframe_refl].
+    apply (so_interv _ _ EFail); simpl; auto.
+  - destruct (cons s) eqn:Ec; try (apply silent_of_cframe; auto; apply cframe_refl).
+    apply silent_of_cframe; simpl; auto. unfold cframe; simpl; rewrite ?Ec; repeat split; auto.
+  - destruct (cons s) eqn:Ec; try (apply silent_of_cframe; auto; apply cframe_refl).
+    apply silent_of_cframe; simpl; auto. unfold cframe; simpl; rewrite ?Ec; repeat split; auto.
+  - destruct (cons s) eqn:Ec; try (apply silent_of_cframe; auto; apply cframe_refl).
+    destruct (rx_open s); [apply silent_of_cframe; auto; apply cframe_refl|].
+    apply (so_exit _ _ r); simpl; auto. rewrite Ec. auto.
+Qed.
+
+(* ---------- soundness of the executable oracle check_C07 on model logs ---------- *)
+
+Lemma result_step s l i r : result s i = Some r -> result (step s l) i = Some r.
+Proof.
+  intros H. pose proof (result_pc _ _ _ H) as Hn. unfold result.
+  destruct (step_pc s l i) as [[K|[K1 K2]]|[f K]].
+  - rewrite K, Hn. auto.
+  - congruence.
+  - rewrite K. unfold sstep. rewrite Hn. destruct (nth_error (si s) i); rewrite Hn; auto.
+Qed.
+
+Lemma mem_in x l : mem x l = true <-> In x l.
+Proof.
+  unfold mem. rewrite existsb_exists. split.
+  - intros (y & Hy & E). apply Nat.eqb_eq in E. subst; auto.
+  - intros H. exists x. split; auto. apply Nat.eqb_refl.
+Qed.
+
+Lemma mem_cons x y l : mem x (y :: l) = true <-> x = y \/ mem x l = true.
+Proof. rewrite !mem_in. simpl. split; intros [A|A]; auto. Qed.
+
+Definition O7 (s : st) : o7 := fold_left o7_step (log s) o7_init.
+
+Lemma O7_snoc s s' e : log s' = log s ++ [e] -> O7 s' = o7_step (O7 s) e.
+Proof. unfold O7. intros ->. rewrite fold_left_app. reflexivity. Qed.
+
+Lemma O7_same s s' : log s' = log s -> O7 s' = O7 s.
+Proof. unfold O7. intros ->. reflexivity. Qed.
+
+Record OInv7 (s : st) : Prop := {
+  o_bad : d_bad (O7 s) = false;
+  o_dr : d_drained (O7 s) = true -> 4 <= status s /\ closed s = true;
+  o_late : forall i, mem i (d_late (O7 s)) = true -> 4 <= status s /\ late_ok s i;
+  o_wrong : forall i inf, nth_error (si s) i = Some inf -> wrong inf = true ->
+            mem i (d_wrong (O7 s)) = true;
+  o_ex : d_exits (O7 s) = exits s;
+  o_ok : forall i, mem i (d_ok (O7 s)) = true -> result s i = Some ROk;
+  o_hd : forall i, In i (handled s) -> mem i (d_handled (O7 s)) = true;
+  o_iv : d_interv (O7 s) = false ->
+         stop_req s = false /\ kill_req s = false /\ quiet (cons s) = true
+}.
+
+Lemma oinv7_init : OInv7 init.
+Proof.
+  constructor; unfold O7; simpl; auto; try discriminate; try tauto.
+  intros [|i] inf H; discriminate.
+Qed.
+
+Theorem oinv7_step s l : Inv s -> OInv7 s -> OInv7 (step s l).
+Proof.
+  intros I [B Dr La Wr Ex Ok Hd Iv].
+  pose proof (step_inv s l I) as I'.
+  pose proof (mono_step s l) as [Ms Mc _ Msi].
+  pose proof (sobs_step s l (n_len _ (inv_n _ I))) as SO.
+  set (s' := step s l) in *.
+  assert (LATE : forall i, 4 <= status s /\ late_ok s i -> 4 <= status s' /\ late_ok s' i).
+  { intros i [A1 A2]. split; [lia|apply late_step; auto]. }
+  destruct SO as [L E H S K Si Q | i w inf L Hn Hi Hw Hsi E H S K Q | i r L Hr (E & H & S & K & Q & Si)
+                 | ok j L Hj (E & H & S & K & Q & Si) | i L H E S K Q S0 K0 Si | r L E H S K Q Si | e He L E H Si].
+  - (* silent *)
+    constructor; rewrite ?(O7_same _ _ L).
+    + auto.
+    + intros X. destruct (Dr X). split; auto; lia.
+    + intros x X. apply LATE, La, X.
+    + rewrite Si. auto.
+    + congruence.
+    + intros x X. apply result_step, Ok, X.
+    + rewrite H. auto.
+    + intros X. destruct (Iv X) as (A1 & A2 & A3). rewrite S, K. auto.
+  - (* begin *)
+    constructor; rewrite ?(O7_snoc _ _ _ L); simpl.
+    + auto.
+    + intros X. destruct (Dr X). split; auto; lia.
+    + intros x X. destruct (d_drained (O7 s)) eqn:Ed; [|apply LATE, La, X].
+      apply mem_cons in X as [->|X]; [|apply LATE, La, X].
+      destruct (Dr eq_refl) as [A1 _]. apply LATE. split; auto. unfold late_ok. rewrite Hn. auto.
+    + intros x y Hx Hwy. destruct (Hsi _ _ Hx) as [->|Hx'].
+      * rewrite Hi in Hx. injection Hx as <-. rewrite <- Hw, Hwy. apply mem_cons. auto.
+      * pose proof (Wr _ _ Hx' Hwy) as Y. destruct w; auto. apply mem_cons. auto.
+    + congruence.
+    + intros x X. apply result_step, Ok, X.
+    + rewrite H. auto.
+    + intros X. destruct (Iv X) as (A1 & A2 & A3). rewrite S, K, Q. auto.
+  - (* end *)
+    constructor; rewrite ?(O7_snoc _ _ _ L); simpl.
+    + rewrite B. simpl. apply negb_false_iff.
+      destruct (mem i (d_late (O7 s))) eqn:Em; auto.
+      destruct (LATE _ (La _ Em)) as [_ X]. unfold late_ok in X.
+      rewrite (result_pc _ _ _ Hr) in X.
+      destruct r as [|m|]; [tauto|subst; apply Nat.eqb_refl|].
+      destruct X as (inf & A1 & A2). rewrite Si in A1. eapply Wr; eauto.
+    + intros X. destruct (Dr X). split; auto; lia.
+    + intros x X. apply LATE, La, X.
+    + rewrite Si. auto.
+    + congruence.
+    + intros x X. destruct r; try (apply result_step, Ok, X).
+      apply mem_cons in X as [->|X]; auto. apply result_step, Ok, X.
+    + rewrite H. auto.
+    + intros X. destruct (Iv X) as (A1 & A2 & A3). rewrite S, K, Q. auto.
+  - (* drain end *)
+    constructor; rewrite ?(O7_snoc _ _ _ L); simpl.
+    + auto.
+    + intros _. destruct I' as [N' _ _].
+      pose proof (sumf_upd d_past2 _ _ _ D0 Hj) as X1. pose proof (sumf_upd d_past _ _ _ D0 Hj) as X2.
+      simpl in X1, X2. split; [apply (n_status _ N')|apply (n_closed _ N')]; lia.
+    + intros x X. apply LATE, La, X.
+    + rewrite Si. auto.
+    + congruence.
+    + intros x X. apply result_step, Ok, X.
+    + rewrite H. auto.
+    + intros X. destruct (Iv X) as (A1 & A2 & A3). rewrite S, K, Q. auto.
+  - (* handle *)
+    constructor; rewrite ?(O7_snoc _ _ _ L); simpl.
+    + auto.
+    + intros X. destruct (Dr X). split; auto; lia.
+    + intros x X. apply LATE, La, X.
+    + rewrite Si. auto.
+    + congruence.
+    + intros x X. apply result_step, Ok, X.
+    + intros x X. rewrite H in X. apply mem_cons. apply in_app_or in X as [X|[X|[]]]; auto.
+    + intros _. rewrite S, K. auto.
+  - (* exit *)
+    constructor; rewrite ?(O7_snoc _ _ _ L); simpl.
+    + rewrite B, Ex. simpl.
+      destruct (drained_once _ I') as (Len & _). fold s' in Len. rewrite E, app_length in Len. simpl in Len.
+      destruct (exits s); auto. simpl in Len. lia.
+    + intros X. destruct (Dr X). split; auto; lia.
+    + intros x X. apply LATE, La, X.
+    + rewrite Si. auto.
+    + congruence.
+    + intros x X. apply result_step, Ok, X.
+    + rewrite H. auto.
+    + intros X. destruct (Iv X) as (A1 & A2 & A3). rewrite S, K, Q. auto.
+  - (* intervention *)
+    assert (Z : o7_step (O7 s) e = mkO7 (d_drained (O7 s)) (d_late (O7 s)) (d_wrong (O7 s)) (d_ok (O7 s))
+                  (d_handled (O7 s)) (d_exits (O7 s)) true (d_bad (O7 s))) by (destruct e; try discriminate; auto).
+    constructor; rewrite ?(O7_snoc _ _ _ L), ?Z; simpl.
+    + auto.
+    + intros X. destruct (Dr X). split; auto; lia.
+    + intros x X. apply LATE, La, X.
+    + rewrite Si. auto.
+    + congruence.
+    + intros x X. apply result_step, Ok, X.
+    + rewrite H. auto.
+    + discriminate.
+Qed.
+
+Theorem reachable_oinv7 s : reachable s -> Inv s /\ OInv7 s.
+Proof.
+  intros [ls ->]. unfold run. rewrite <- fold_left_rev_right.
+  induction (rev ls) as [|l t IH]; simpl.
+  - split; [constructor; [apply ninv_init|apply hinv_init|apply qinv_init]|apply oinv7_init].
+  - destruct IH. split; [apply step_inv|apply oinv7_step]; auto.
+Qed.
+
+Theorem check_C07_sound s : reachable s -> check_C07 (complete s) (log s) = true.
+Proof.
+  intros R. destruct (reachable_oinv7 s R) as [I [B Dr La Wr Ex Ok Hd Iv]].
+  unfold check_C07. fold (O7 s). rewrite B. simpl.
+  apply andb_true_iff. split.
+  - destruct (only_drained (d_exits (O7 s))) eqn:Eo; auto.
+    rewrite Ex in Eo. destruct (exits s) as [|r [|]] eqn:Ee; try discriminate. simpl in Eo.
+    destruct r; try discriminate.
+    destruct (drained_once _ I) as (_ & D2 & D3). apply D3 in Ee.
+    destruct (D2 RDrained (or_intror Ee) eq_refl) as (_ & Hh & _).
+    unfold subset. apply forallb_forall. intros x Hx. apply mem_in in Hx. apply Hd. rewrite Hh.
+    apply ok_accepted; auto.
+  - destruct (complete s && d_drained (O7 s) && negb (d_interv (O7 s))) eqn:Ec; auto.
+    apply andb_true_iff in Ec as [Ec E3]. apply andb_true_iff in Ec as [E1 E2].
+    apply negb_true_iff in E3. destruct (Iv E3) as (S0 & K0 & Q). destruct (Dr E2) as [_ Hc].
+    unfold complete in E1. apply andb_true_iff in E1 as [AD E1]. rewrite Ex.
+    destruct (cons s) eqn:Eco; try discriminate.
+    + exfalso. assert (A : alive (cons s) = true) by (rewrite Eco; auto).
+      pose proof (not_idle_closed s I AD Hc A) as X. destruct (q s); [destruct X|discriminate].
+    + simpl in Q. destruct r; try discriminate.
+      destruct (q_dead _ (inv_q _ I) _ Eco) as (-> & _). auto.
+Qed.
